@@ -24,6 +24,11 @@ LeafS(v, e, s) == [k |-> "L", v |-> v, e |-> e, s |-> s]
 DefaultVal == LeafS("$default", 90, "<default>")    \* the default= argument
 Rendered == LeafS("$rendered", 91, "<rendered>")    \* the string a template is rendered to
 KeyLeaf(s) == LeafS("$key", 92, s)                  \* a key string used as a value (str_to_dict)
+\* default values other than an opaque object: "default given" is one thing, its value another
+DefLeaves == [none |-> LeafS("$d:none", 94, "None"), zero |-> LeafS("$d:zero", 95, "0"),
+              estr |-> LeafS("$d:estr", 96, ""), false |-> LeafS("$d:false", 97, "False"),
+              elist |-> LeafS("$d:elist", 98, "[]")]
+DefaultOf(o) == IF o.dv = "obj" THEN DefaultVal ELSE IF o.dv = "edict" THEN Empty ELSE DefLeaves[o.dv]
 NoVal == LeafS("$value", 93, "<value>")                \* the value argument of str_to_dict; "nothing yet"
 
 Ok(r) == [ok |-> TRUE, r |-> r]
@@ -68,6 +73,18 @@ GetRef(d, p, dflt) == IF Has(d, p) THEN Ok(Get(d, p))
                       ELSE IF dflt THEN Ok(DefaultVal) ELSE Raise("LenaKeyError")
 \* the item is there, or the value reached by all but the last part is not a dictionary and
 \* its string representation is the last part
+\* get_recursively of a call (its default has a value)
+GetRefC(c, d) == IF Has(d, c.path) THEN Ok(Get(d, c.path))
+                 ELSE IF c.dflt THEN Ok(DefaultOf(c.o)) ELSE Raise("LenaKeyError")
+\* the dictionary key notation: exactly one key at every level, otherwise LenaValueError - at whatever
+\* depth; a value that is neither a dictionary nor a string is not a key (not documented: a Lena
+\* type / value error, or the key is simply not found)
+GetDOutcomes(c, d) ==
+  IF c.lvl > 0 THEN {Raise("LenaValueError")}
+  ELSE IF c.uk = "kd-nonstr"
+    THEN {Raise("LenaTypeError"), Raise("LenaValueError"),
+          IF c.dflt THEN Ok(DefaultOf(c.o)) ELSE Raise("LenaKeyError")}
+  ELSE {GetRefC(c, d)}
 ContainsRef(d, p) ==
   \/ Has(d, p)
   \/ Len(p) >= 2 /\ Has(d, Front(p)) /\ ~IsD(Get(d, Front(p))) /\ Get(d, Front(p)).s = Last(p)
@@ -103,9 +120,17 @@ FrameOK(d, e, target) ==
 (*         "bad" (string with unbalanced braces), "none"                   *)
 (*   o     UpdateContext options [value, def, skip, raise, rec]            *)
 (***************************************************************************)
-NoOpts == [value |-> FALSE, def |-> FALSE, skip |-> FALSE, raise |-> FALSE, rec |-> TRUE]
+\*   o.dv  the value of the default: "obj" (an opaque object), "none", "zero", "estr", "false", "elist",
+\*         "edict" (an empty dictionary)
+\*   lvl   dictionary key notation: the level at which the key dictionary has two keys (0 = nowhere);
+\*         uk then says how the key dictionary ends: "kd-empty" ({}), "kd-str" (the last key as a
+\*         string value), "kd-nonstr" (a value that is neither a dictionary nor a string)
+NoOpts == [value |-> FALSE, def |-> FALSE, skip |-> FALSE, raise |-> FALSE, rec |-> TRUE, dv |-> "obj"]
 Call(op, path, dflt, tpl, uk, uv, o) ==
-  [op |-> op, path |-> path, dflt |-> dflt, tpl |-> tpl, uk |-> uk, uv |-> uv, o |-> o]
+  [op |-> op, path |-> path, dflt |-> dflt, tpl |-> tpl, uk |-> uk, uv |-> uv, o |-> o, lvl |-> 0]
+KeyDictCall(path, dflt, dv, uk, lvl) ==
+  [op |-> "getd", path |-> path, dflt |-> dflt, tpl |-> <<>>, uk |-> uk, uv |-> Empty,
+   o |-> [NoOpts EXCEPT !.dv = dv], lvl |-> lvl]
 Simple(op, path) == Call(op, path, FALSE, <<>>, "none", Empty, NoOpts)
 
 NActive(o) == (IF o.def THEN 1 ELSE 0) + (IF o.skip THEN 1 ELSE 0) + (IF o.raise THEN 1 ELSE 0)
@@ -125,7 +150,7 @@ Absent(c, d) == IF c.uk # "str" THEN FALSE
                 ELSE ~AllPresent(d, c.tpl)
 \* the value the addressed item is set to (rs: the rendered string)
 UpdValue(c, d, rs) == IF c.uk = "simple" THEN c.uv
-                      ELSE IF RefMode(c) THEN (IF Has(d, c.tpl[1].p) THEN Get(d, c.tpl[1].p) ELSE DefaultVal)
+                      ELSE IF RefMode(c) THEN (IF Has(d, c.tpl[1].p) THEN Get(d, c.tpl[1].p) ELSE DefaultOf(c.o))
                       ELSE rs
 
 (***************************************************************************)
